@@ -1,5 +1,6 @@
 import SqlModel.Filters
 import SqlProofs.OptionsTotal
+import SqlProofs.IndentSpec
 /-!
 # SqlProofs.FormatSpec — facts about the end-to-end model `Sql.format` (SqlModel/Filters/Format.lean)
 -/
@@ -61,5 +62,105 @@ theorem format_validates_first (fuel : Nat) (d : PyDict) (s : Array Cp) (e : PyE
     format fuel d s = .error e := by
   unfold format
   rw [h]
+
+open FNode (leaves leavesL)
+
+/-! ## layout-only filter stacks change nothing but whitespace -/
+
+/-- the statement filters that `strip_whitespace`, `use_space_around_operators`, `reindent`, `reindent_aligned` (and their
+sub-options) put on the stack -/
+def StmtObj.isLayout : StmtObj → Bool
+  | .spaces | .stripWs | .reindent .. | .aligned .. => true
+  | .stripComments | .rightMargin => false
+
+def StmtFilter.isLayout : StmtFilter → Bool
+  | .spacesAroundOperators | .stripWhitespace | .reindent .. | .alignedIndent _ => true
+  | .stripComments | .rightMargin _ => false
+
+theorem isLayout_ofFilter (f : StmtFilter) : (StmtObj.ofFilter f).isLayout = f.isLayout := by
+  cases f <;> rfl
+
+theorem isLayout_noteLast (t : Text) (f : StmtObj) : (f.noteLast t).isLayout = f.isLayout := by
+  cases f <;> rfl
+
+theorem StmtObj.process_layout_sig (fuel : Nat) (n n' : FNode) (f f' : StmtObj) (hl : f.isLayout = true)
+    (h : f.process fuel n = .ok (n', f')) : sigToks n'.leaves = sigToks n.leaves ∧ f'.isLayout = true := by
+  cases f with
+  | spaces =>
+    simp only [StmtObj.process] at h
+    cases hs : spacesAroundOperators fuel n with
+    | error e => rw [hs] at h; cases h
+    | ok r =>
+      rw [hs] at h
+      simp only [Except.map, Except.ok.injEq, Prod.mk.injEq] at h
+      rw [← h.1, ← h.2]
+      exact ⟨spaces_preserves_sig fuel n r hs, rfl⟩
+  | stripWs =>
+    simp only [StmtObj.process] at h
+    cases hs : stripWhitespace fuel n with
+    | error e => rw [hs] at h; cases h
+    | ok r =>
+      rw [hs] at h
+      simp only [Except.map, Except.ok.injEq, Prod.mk.injEq] at h
+      rw [← h.1, ← h.2]
+      exact ⟨stripWhitespace_preserves_sig fuel n r hs, rfl⟩
+  | reindent cfg st last =>
+    simp only [StmtObj.process] at h
+    cases hs : reindentProcess cfg fuel st last n with
+    | error e => rw [hs] at h; cases h
+    | ok r =>
+      obtain ⟨a, b⟩ := r
+      rw [hs] at h
+      simp only [Except.map, Except.ok.injEq, Prod.mk.injEq] at h
+      rw [← h.1, ← h.2]
+      exact ⟨reindent_preserves_sig cfg fuel st last n a b hs, rfl⟩
+  | aligned ch st =>
+    simp only [StmtObj.process] at h
+    cases hs : alignedProcess ch fuel st n with
+    | error e => rw [hs] at h; cases h
+    | ok r =>
+      obtain ⟨a, b⟩ := r
+      rw [hs] at h
+      simp only [Except.map, Except.ok.injEq, Prod.mk.injEq] at h
+      rw [← h.1, ← h.2]
+      exact ⟨aligned_preserves_sig ch fuel st n a b hs, rfl⟩
+  | stripComments => cases hl
+  | rightMargin => cases hl
+
+/-- C06 for a whole stack: if every statement filter is a layout filter, the statement tree handed to the postprocess
+filters has the same non-whitespace leaves as the tree that came out of grouping (and the stack stays a layout stack,
+so the same holds for the next statement) -/
+theorem runStmtObjs_layout_sig (fuel : Nat) : ∀ (objs : List StmtObj) (n n' : FNode) (objs' : List StmtObj),
+    objs.all StmtObj.isLayout = true → runStmtObjs fuel objs n = .ok (n', objs') →
+    sigToks n'.leaves = sigToks n.leaves ∧ objs'.all StmtObj.isLayout = true
+  | [], n, n', objs', _, h => by
+    simp only [runStmtObjs, Except.ok.injEq, Prod.mk.injEq] at h
+    rw [← h.1, ← h.2]; exact ⟨rfl, rfl⟩
+  | f :: fs, n, n', objs', hl, h => by
+    simp only [List.all_cons, Bool.and_eq_true] at hl
+    unfold runStmtObjs at h
+    cases hp : f.process fuel n with
+    | error e => rw [hp] at h; cases h
+    | ok r =>
+      obtain ⟨n1, f'⟩ := r
+      rw [hp] at h
+      simp only at h
+      cases hr : runStmtObjs fuel fs n1 with
+      | error e => rw [hr] at h; cases h
+      | ok r2 =>
+        obtain ⟨n2, fs'⟩ := r2
+        rw [hr] at h
+        simp only [Except.ok.injEq, Prod.mk.injEq] at h
+        obtain ⟨a1, a2⟩ := StmtObj.process_layout_sig fuel n n1 f f' hl.1 hp
+        obtain ⟨b1, b2⟩ := runStmtObjs_layout_sig fuel fs n1 n2 fs' hl.2 hr
+        rw [← h.1, ← h.2]
+        exact ⟨by rw [b1, a1], by simp [a2, b2]⟩
+
+/-- the stack built for a plan without `strip_comments` and `right_margin` is a layout stack -/
+theorem layout_plan_objs (p : FilterPlan) (h : p.stmtprocess.all StmtFilter.isLayout = true) :
+    (p.stmtprocess.map StmtObj.ofFilter).all StmtObj.isLayout = true := by
+  rw [List.all_map]
+  simpa [Function.comp, isLayout_ofFilter] using h
+
 
 end Sql
